@@ -97,13 +97,28 @@ func TestVerifC29(t *testing.T) {
 		segDur := []time.Duration{time.Second, 2 * time.Second}[rng.IntN(2)]
 		cur := t0.Add(time.Duration(rng.IntN(1000)) * time.Millisecond)
 		nSessions := 2 + rng.IntN(3)
+		newestOpen := false
 		for s := 0; s < nSessions; s++ {
 			frames := fps * (1 + rng.IntN(4))
-			rec := vRecord(t, pf, vRecSpec{PathName: "cam", Video: true, Audio: audio, GOP: gop, FPS: fps, Frames: frames, SegmentDuration: segDur, PartDuration: partDur, StartNTP: cur})
+			lag := []time.Duration{0, 0, 300 * time.Millisecond, -180 * time.Millisecond}[rng.IntN(4)]
+			lastOpen := s == nSessions-1 && rng.IntN(2) == 0
+			rec := vRecord(t, pf, vRecSpec{PathName: "cam", Video: true, Audio: audio, GOP: gop, FPS: fps, Frames: frames, SegmentDuration: segDur, PartDuration: partDur, StartNTP: cur, AudioLag: lag, SnapshotOpen: lastOpen})
 			if len(rec.Segments) == 0 {
 				t.Fatalf("harness: nothing recorded")
 			}
+			if lastOpen {
+				newestOpen = true
+				// the newest segment is still being written: the file as it is on disk before it is closed (no duration in the header)
+				last := rec.Segments[len(rec.Segments)-1]
+				if img := rec.OpenImage[last]; len(img) > 0 {
+					os.WriteFile(last, img, 0o644) //nolint:errcheck
+					r.Count("histories_whose_newest_segment_is_still_open", 1)
+				}
+			}
 			cur = cur.Add(time.Duration(frames) * time.Second / time.Duration(fps))
+			if lag < 0 {
+				cur = cur.Add(-lag + 50*time.Millisecond) // a leading audio track ends after the video: sessions do not overlap in time
+			}
 			switch rng.IntN(3) {
 			case 0: // the next session follows immediately (restart without a gap)
 				cur = cur.Add(time.Duration(1+rng.IntN(40)) * time.Millisecond)
@@ -255,7 +270,47 @@ func TestVerifC29(t *testing.T) {
 				}
 				if !ok {
 					cls := "boundaries"
-					if len(got) != len(want) {
+					if newestOpen {
+						// does the answer equal the reference recomputed with the newest (open) segment ending where its *last part*
+						// ends (instead of where its media ends)?
+						lsg := segs[len(segs)-1]
+						var lastPartEnd time.Duration
+						if np := len(lsg.seg.Parts); np > 0 {
+							for _, sm := range lsg.seg.Parts[np-1].Samples {
+								if e := c29Dur(sm.DTS+int64(sm.Duration), lsg.seg.timescale(sm.Track)); e > lastPartEnd {
+									lastPartEnd = e
+								}
+							}
+						}
+						alt := append([]c29Span(nil), spans...)
+						alt[len(alt)-1].end = lsg.start.Add(lastPartEnd)
+						var want2 []c29Span
+						for _, sp := range alt {
+							a, b := sp.start, sp.end
+							if S != nil && a.Before(*S) {
+								a = *S
+							}
+							if E != nil && b.After(*E) {
+								b = *E
+							}
+							if b.Sub(a) > 2*time.Millisecond {
+								want2 = append(want2, c29Span{a, b})
+							}
+						}
+						same := len(got) == len(want2) && alt[len(alt)-1].end.Before(spans[len(spans)-1].end)
+						for i := 0; same && i < len(got); i++ {
+							da, db := got[i].start.Sub(want2[i].start), got[i].end.Sub(want2[i].end)
+							same = da > -2*time.Millisecond && da < 2*time.Millisecond && db > -2*time.Millisecond && db < 2*time.Millisecond
+						}
+						if same {
+							cls = "end-of-open-newest-segment-taken-from-its-last-part-only"
+						}
+					}
+					if cls == "boundaries" && len(got) != len(want) {
+						cls = fmt.Sprintf("count-%d-instead-of-%d", min(len(got), 3), min(len(want), 3))
+					}
+					if false {
+
 						cls = fmt.Sprintf("count-%d-instead-of-%d", min(len(got), 3), min(len(want), 3))
 					}
 					fs := func(l []c29Span) string {
@@ -265,7 +320,18 @@ func TestVerifC29(t *testing.T) {
 						}
 						return strings.Join(o, " ")
 					}
-					r.Violation("list-spans-wrong:"+cls, fmt.Sprintf("%s (status %d) returns %s; the recorded media clipped to the request is %s (recorded spans: %s)", strings.TrimPrefix(url, base), st, fs(got), fs(want), fs(spans)), map[string]any{"body": string(body)})
+					var lp []string
+					lsg := segs[len(segs)-1]
+					for pi, p := range lsg.seg.Parts {
+						ends := map[uint32]float64{}
+						for _, sm := range p.Samples {
+							if e := float64(sm.DTS+int64(sm.Duration)) / float64(lsg.seg.timescale(sm.Track)); e > ends[sm.Track] {
+								ends[sm.Track] = e
+							}
+						}
+						lp = append(lp, fmt.Sprintf("part %d ends %v", pi, ends))
+					}
+					r.Violation("list-spans-wrong:"+cls, fmt.Sprintf("%s (status %d) returns %s; the recorded media clipped to the request is %s (recorded spans: %s)", strings.TrimPrefix(url, base), st, fs(got), fs(want), fs(spans)), map[string]any{"body": string(body), "newest_segment_header_duration": lsg.seg.MvhdDuration, "newest_segment_parts": lp})
 				}
 				if r.WantSample() && rng.IntN(30) == 0 {
 					r.Sample(map[string]any{"request": strings.TrimPrefix(url, base), "spans_returned": len(got), "spans_expected": len(want)})
@@ -539,6 +605,6 @@ func TestVerifC29(t *testing.T) {
 			}
 		}
 	}
-	r.Finish("recording histories made by the real recorder: 2..4 publisher sessions (new stream id each) of 1..4 s, separated by gaps of 0.5..3.5 s or following each other within 40 ms, GOP 1 / 5 / 12, 10 / 25 / 30 fps, with or without audio, parts of 100..500 ms, segments of 1..2 s. Reference = the harness' own box walker over the files (sample table with absolute times; spans = maximal runs of consecutive segment numbers of one stream id). Queries to the real playback server (child process) over HTTP: /list with start / end at span, segment and sample boundaries +-0, 1, 40, 500 ms (and open ended): returned spans == recorded spans clipped to the window (2 ms tolerance), ordered, non overlapping; /get windows of 40 ms..10 s at the same instants: per track, returned payloads == recorded samples in [start, start+duration) of the first span with media in the window, preceded by the samples since the last random-access sample only when the first one is not one, stamped relative to the requested start (2 ms). non-trivial = distinct (history, request)",
+	r.Finish("recording histories made by the real recorder: 2..4 publisher sessions (new stream id each) of 1..4 s, separated by gaps of 0.5..3.5 s or following each other within 40 ms, GOP 1 / 5 / 12, 10 / 25 / 30 fps, with or without audio (in step, lagging by 300 ms or leading by 180 ms), parts of 100..500 ms, segments of 1..2 s; in half of the histories the newest segment is still open (the file as it is on disk before close: no duration in its header). Reference = the harness' own box walker over the files (sample table with absolute times; spans = maximal runs of consecutive segment numbers of one stream id). Queries to the real playback server (child process) over HTTP: /list with start / end at span, segment and sample boundaries +-0, 1, 40, 500 ms (and open ended): returned spans == recorded spans clipped to the window (2 ms tolerance), ordered, non overlapping; /get windows of 40 ms..10 s at the same instants: per track, returned payloads == recorded samples in [start, start+duration) of the first span with media in the window, preceded by the samples since the last random-access sample only when the first one is not one, stamped relative to the requested start (2 ms). non-trivial = distinct (history, request)",
 		"spans shorter than 2 ms are ignored on both sides; a window that covers several sessions is judged on the first one only")
 }
